@@ -4,7 +4,7 @@ import collections
 
 from .. import astx, hooks
 from ..core import REPO, CaseTimeout, case_timeout
-from ..gen_expr import Gen, datasets
+from ..gen_expr import GLOB, Gen, datasets
 from ..refeval import evaluate
 
 N_CASES = {"quick": 320, "thorough": 300000}  # per shard
@@ -64,7 +64,7 @@ def check_one(ctx, q, data, info, classify=True):
     """Run the simplifier on a copy of q under the monitor. Returns the list of problems."""
     from func_adl.ast.function_simplifier import simplify_chained_calls
 
-    before = [evaluate(q, d) for d in data]
+    before = [evaluate(q, d, GLOB) for d in data]
     if all(b[0] != "ok" for b in before):
         ctx.count("trivial:input-does-not-evaluate:" + before[-1][0])
         return None
@@ -83,7 +83,7 @@ def check_one(ctx, q, data, info, classify=True):
     fn_out = astx.free_names(out)
     if not fn_out <= fn_in:
         problems.append(("free-name-introduced", f"free names {sorted(fn_out - fn_in)} appear in the output"))
-    after = [evaluate(out, d) for d in data]
+    after = [evaluate(out, d, GLOB) for d in data]
     for di, (b, a) in enumerate(zip(before, after)):
         if b[0] == "ok" and a != b:
             problems.append((f"mismatch:{a[0]}", f"dataset#{di}: before={str(b)[:200]} after={str(a)[:200]}"))
@@ -101,12 +101,12 @@ def classify(q, data):
     from func_adl.ast.function_simplifier import simplify_chained_calls
 
     def bad(qq):
-        before = [evaluate(qq, d) for d in data]
+        before = [evaluate(qq, d, GLOB) for d in data]
         try:
             out = simplify_chained_calls().visit(astx.clone(qq))
         except Exception:
             return False
-        after = [evaluate(out, d) for d in data]
+        after = [evaluate(out, d, GLOB) for d in data]
         if not astx.free_names(out) <= astx.free_names(qq):
             return True
         return any(b[0] == "ok" and a != b for b, a in zip(before, after))
